@@ -83,7 +83,7 @@ class Sched:
             def socket(*a, **k):
                 if sched.default_net is None:
                     raise OSError("no virtual network for an implicitly created socket")
-                return sched.default_net.socket()
+                return sched.default_net.socket(implicit=True)  # a socket the library opened itself
 
         us.socket = SockShim
         return self
@@ -281,14 +281,17 @@ class TNet:
         self.fault = None  # callable(record) -> list of delays or None
         self.log = []  # dicts: id, t, src, dst, data, verb, fate
         self._port = 50000
+        self.created = []  # every mock socket handed out (the library must close the ones it made)
         sched.default_net = self
 
-    def socket(self, addr=None):
+    def socket(self, addr=None, implicit=False):
         if addr is None:
             self._port += 1
             addr = ("10.0.0.2", self._port)
         s = MockSocket(self, addr)
+        s.implicit = implicit
         self.socks[addr] = s
+        self.created.append(s)
         return s
 
     def send(self, src_sock, data, addr):
@@ -317,12 +320,13 @@ class MockSocket:
         self.timeout = None
         self.closed = False
         self.sent = []  # (t, data, addr)
+        self.options = set()
 
     def settimeout(self, t):
         self.timeout = t
 
     def setsockopt(self, *a):
-        pass
+        self.options.add(tuple(a[:3]))
 
     def bind(self, addr):
         pass
@@ -330,6 +334,8 @@ class MockSocket:
     def sendto(self, data, addr):
         if self.closed:
             raise OSError("socket closed")
+        if addr[0] in ("<broadcast>", "255.255.255.255") and (socket.SOL_SOCKET, socket.SO_BROADCAST, 1) not in self.options:
+            raise PermissionError(13, "Permission denied")  # what the OS says without SO_BROADCAST
         self.sent.append((self.net.sched.now, bytes(data), tuple(addr[:2])))
         self.net.send(self, data, addr)
         return len(data)
